@@ -105,7 +105,7 @@ def parsePrim : Val → Option (Prim El)
   | _ => none
 
 partial def parseCond : Val → Option (Cond El)
-  | .list (.sym "n" :: cs) => do pure (.node (← cs.mapM parseCond))
+  | .list (.sym "n" :: w :: cs) => do pure (.node (← w.asBool?) (← cs.mapM parseCond))
   | v => do pure (.prim (← parsePrim v))
 
 def pEl (e : El) : String := "(" ++ " ".intercalate (e.map toString) ++ ")"
@@ -120,7 +120,7 @@ def pMaskV : MaskV El → String
 
 partial def pCond : Cond El → String
   | .prim p => s!"(p {p.ty} {p.kw} {pB p.hasMask} {pMaskV p.mask})"
-  | .node cs => "(n" ++ String.join (cs.map fun c => " " ++ pCond c) ++ ")"
+  | .node w cs => "(n " ++ pB w ++ String.join (cs.map fun c => " " ++ pCond c) ++ ")"
 
 def handle : Handler
   | .sym "at" :: args => Id.run do
